@@ -242,6 +242,41 @@ fn int_pair<const N: usize, const M: usize>(sa: usize, va: &[i32], sb: usize, vb
             return Err(format!("() elements: == / partial_cmp disagree with the lengths {} vs {}", va.len(), vb.len()));
         }
     }
+    // zero-sized element types whose equality is not the trivial one: never equal (NaN-like marker), and two distinct
+    // marker types that are never equal to each other; plus the ordinary unit struct
+    {
+        #[derive(Clone, Copy, Debug)]
+        struct NeverEq;
+        impl PartialEq for NeverEq {
+            fn eq(&self, _: &Self) -> bool {
+                false
+            }
+        }
+        #[derive(Clone, Copy, Debug)]
+        struct MarkA;
+        #[derive(Clone, Copy, Debug)]
+        struct MarkB;
+        impl PartialEq<MarkB> for MarkA {
+            fn eq(&self, _: &MarkB) -> bool {
+                false
+            }
+        }
+        #[derive(Clone, Copy, Debug, PartialEq)]
+        struct Plain0;
+        let both_empty = va.is_empty() && vb.is_empty();
+        let (x, y) = (build::<N, NeverEq>(sa, &vec![NeverEq; va.len()], NeverEq), build::<M, NeverEq>(sb, &vec![NeverEq; vb.len()], NeverEq));
+        if (x == y) != both_empty || (x != y) == both_empty || (x == vec![NeverEq; vb.len()][..]) != both_empty {
+            return Err(format!("zero-sized elements that are never equal: buffers of lengths {} and {} compare equal = {}", va.len(), vb.len(), x == y));
+        }
+        let (x, y) = (build::<N, MarkA>(sa, &vec![MarkA; va.len()], MarkA), build::<M, MarkB>(sb, &vec![MarkB; vb.len()], MarkB));
+        if (x == y) != both_empty || (x == vec![MarkB; vb.len()][..]) != both_empty {
+            return Err(format!("two zero-sized marker types that are never equal: buffers of lengths {} and {} compare equal = {}", va.len(), vb.len(), x == y));
+        }
+        let (x, y) = (build::<N, Plain0>(sa, &vec![Plain0; va.len()], Plain0), build::<M, Plain0>(sb, &vec![Plain0; vb.len()], Plain0));
+        if (x == y) != (va.len() == vb.len()) {
+            return Err(format!("unit-struct elements: buffers of lengths {} and {} compare equal = {}", va.len(), vb.len(), x == y));
+        }
+    }
     // homogeneous side: Ord, Eq and Hash need the same type and (for Ord/Hash) the same capacity
     let b2 = build::<M, A>(sb, &vb.iter().map(|v| A(*v)).collect::<Vec<_>>(), A(JUNK));
     if (a == b2) != eq {
